@@ -202,3 +202,172 @@ Proof.
   destruct (find (fun r => String.eqb (fst r) name) rows) as [r|] eqn:E; [|discriminate].
   apply find_some in E. exists r. tauto.
 Qed.
+
+(* ---------------------------------------------------------------- a site that writes to the caller, with a finally clause *)
+
+Lemma set_nth_same : forall (A : Type) n (a : A) l, n < length l -> nth_error (set_nth n a l) n = Some a.
+Proof.
+  intros A n a. induction n as [|n IH]; intros l Hn; unfold set_nth; simpl.
+  - destruct l; simpl in *; [lia|reflexivity].
+  - destruct l as [|h t]; simpl in *; [lia|]. apply (IH t). lia.
+Qed.
+
+Lemma detach_length : forall s d, length (detach s d) = length s.
+Proof. intros. unfold detach. destruct (nth_error s d); [apply set_nth_length|reflexivity]. Qed.
+
+Lemma detach_other : forall s d x, x <> d -> nth_error (detach s d) x = nth_error s x.
+Proof. intros. unfold detach. destruct (nth_error s d); [apply set_nth_other; assumption|reflexivity]. Qed.
+
+Lemma reattach_length : forall s0 s d, length (reattach s0 s d) = length s.
+Proof. intros. unfold reattach. destruct (nth_error s0 d); [apply set_nth_length|reflexivity]. Qed.
+
+Lemma reattach_other : forall s0 s d x, x <> d -> nth_error (reattach s0 s d) x = nth_error s x.
+Proof. intros. unfold reattach. destruct (nth_error s0 d); [apply set_nth_other; assumption|reflexivity]. Qed.
+
+(* putting back what [s0] held at [d] into a heap that agrees with [detach s0 d] on the old
+   locations gives a heap that agrees with [s0] on the old locations *)
+Lemma reattach_restores : forall s0 s d,
+  length s0 <= length s ->
+  (forall x, x < length s0 -> nth_error s x = nth_error (detach s0 d) x) ->
+  forall x, x < length s0 -> nth_error (reattach s0 s d) x = nth_error s0 x.
+Proof.
+  intros s0 s d Hlen Hag x Hx. destruct (Nat.eq_dec x d) as [->|Hne].
+  - unfold reattach. destruct (nth_error s0 d) as [o|] eqn:E.
+    + apply set_nth_same. lia.
+    + apply nth_error_None in E. lia.
+  - rewrite reattach_other by assumption. rewrite Hag by assumption. apply detach_other. assumption.
+Qed.
+
+Lemma reattach_far : forall s0 s d x, length s0 <= x -> nth_error (reattach s0 s d) x = nth_error s x.
+Proof.
+  intros s0 s d x Hx. unfold reattach. destruct (nth_error s0 d) as [o|] eqn:E; [|reflexivity].
+  apply set_nth_other. intros ->. assert (d < length s0) by (apply nth_error_Some; congruence). lia.
+Qed.
+
+Section Detach.
+  Variables (params res : Type).
+  Variable setp : params -> heap -> loc -> heap * bool.
+  Variable run : params -> heap -> loc -> heap * option res.
+
+  Hypothesis setp_frame : forall ps s l, frame_ok s l (fst (setp ps s l)).
+  Hypothesis run_frame : forall ps s l, frame_ok s l (fst (run ps s l)).
+  (* EXTERNAL: the values Processor.set stores are payload or newly allocated objects: among the
+     locations that existed before, it makes nothing reachable that was not reachable already *)
+  Hypothesis setp_no_capture : forall ps s l x,
+    reach (fst (setp ps s l)) l x -> x < length s -> reach s l x.
+
+  Lemma step_detach_guarded_agrees : forall pol, policy_ok pol = true -> forall ps s p,
+    length s <= length (fst (step_exc params res setp run pol (KDetach true) ps s p)) /\
+    forall x, x < length s ->
+      nth_error (fst (step_exc params res setp run pol (KDetach true) ps s p)) x = nth_error s x.
+  Proof.
+    intros pol Hpol ps s p. unfold step_exc.
+    destruct (detector_of s p) as [d|]; [|simpl; split; [lia|auto]].
+    assert (L1 : length (detach s d) = length s) by apply detach_length.
+    destruct (deepcopy pol (detach s d) p) as [[s2 c]|] eqn:ED.
+    - destruct (deepcopy_fresh _ _ _ _ _ Hpol ED) as [Hc [[blk [Hs2 _]] Hreach]].
+      pose proof (setp_frame ps s2 c) as [Hlen3 Hfr3].
+      assert (L2 : length (detach s d) <= length s2) by (subst s2; rewrite app_length; lia).
+      assert (A3 : forall x, x < length s -> nth_error (fst (setp ps s2 c)) x = nth_error (detach s d) x).
+      { intros x Hx. rewrite Hfr3; [| lia |].
+        - subst s2. apply nth_error_app1. lia.
+        - intros Hr. apply Hreach in Hr. lia. }
+      assert (A4 : forall x, x < length s ->
+                   nth_error (reattach s (fst (setp ps s2 c)) d) x = nth_error s x).
+      { apply reattach_restores; [lia | exact A3]. }
+      destruct (snd (setp ps s2 c)).
+      + (* accepted: the caller is put back, then the pipeline runs on the copy *)
+        pose proof (run_frame ps (reattach s (fst (setp ps s2 c)) d) c) as [Hlen5 Hfr5].
+        assert (L4 : length (reattach s (fst (setp ps s2 c)) d) = length (fst (setp ps s2 c)))
+          by apply reattach_length.
+        split; [lia|]. intros x Hx. rewrite Hfr5; [apply A4; assumption | lia |].
+        intros Hr.
+        assert (G : forall y, reach (reattach s (fst (setp ps s2 c)) d) c y ->
+                              reach (fst (setp ps s2 c)) c y /\ length s <= y).
+        { intros y Hy. induction Hy as [|x' o f y Hy IH E Hin].
+          - split; [apply reach_refl | lia].
+          - destruct IH as [R3 Hge]. rewrite reattach_far in E by exact Hge.
+            assert (R3' : reach (fst (setp ps s2 c)) c y) by (eapply reach_step; eauto).
+            split; [exact R3'|].
+            destruct (Nat.lt_ge_cases y (length s2)) as [Hlt|Hge2]; [|lia].
+            apply setp_no_capture in R3'; [|exact Hlt]. apply Hreach in R3'. lia. }
+        apply G in Hr. lia.
+      + (* rejected: the finally clause puts the caller back *)
+        simpl. rewrite reattach_length. split; [lia | exact A4].
+    - (* the copy itself raised *)
+      simpl. rewrite reattach_length. split; [lia|].
+      apply reattach_restores; [lia | auto].
+  Qed.
+End Detach.
+
+(* ---------------------------------------------------------------- any site kind whose step keeps the old heap as a prefix *)
+
+Section GenSite.
+  Variables (params res : Type).
+  Variable setp : params -> heap -> loc -> heap * bool.
+  Variable run : params -> heap -> loc -> heap * option res.
+  Variable pol : policy.
+  Variable k : skind.
+  Hypothesis step_pref : forall ps s p,
+    exists ext, fst (step_exc params res setp run pol k ps s p) = s ++ ext.
+
+  Lemma observe_exc_frame_gen : forall stop rs s p,
+    exists ext, fst (observe_exc params res setp run stop pol k rs s p) = s ++ ext.
+  Proof.
+    intros stop. induction rs as [|ps rest IH]; intros s p.
+    - exists []. simpl. rewrite app_nil_r. reflexivity.
+    - cbn [observe_exc]. destruct (step_pref ps s p) as [e1 He1].
+      remember (step_exc params res setp run pol k ps s p) as st eqn:Est.
+      destruct (IH (fst st) p) as [e2 He2].
+      destruct st as [s1 [r|]]; destruct stop; simpl in *;
+        try (rewrite He2, He1; exists (e1 ++ e2); rewrite app_assoc; reflexivity).
+      exists e1. exact He1.
+  Qed.
+
+  Lemma calls_exc_frame_gen : forall cs s p,
+    exists ext, fst (calls_exc params res setp run pol k cs s p) = s ++ ext.
+  Proof.
+    induction cs as [|c rest IH]; intros s p; simpl.
+    - exists []. rewrite app_nil_r. reflexivity.
+    - destruct (observe_exc_frame_gen (fst c) (snd c) s p) as [e1 He1].
+      destruct (IH (fst (observe_exc params res setp run (fst c) pol k (snd c) s p)) p) as [e2 He2].
+      rewrite He2, He1. exists (e1 ++ e2). rewrite app_assoc. reflexivity.
+  Qed.
+End GenSite.
+
+Section DetachCalls.
+  Variables (params res : Type).
+  Variable setp : params -> heap -> loc -> heap * bool.
+  Variable run : params -> heap -> loc -> heap * option res.
+  Hypothesis setp_frame : forall ps s l, frame_ok s l (fst (setp ps s l)).
+  Hypothesis run_frame : forall ps s l, frame_ok s l (fst (run ps s l)).
+  Hypothesis setp_no_capture : forall ps s l x,
+    reach (fst (setp ps s l)) l x -> x < length s -> reach s l x.
+
+  (* a site that writes to the caller before copying and puts everything back in a FINALLY clause
+     keeps the frame on every history, failing runs included *)
+  Theorem calls_detach_guarded_frame : forall pol, policy_ok pol = true -> forall cs s p x,
+    x < length s ->
+    nth_error (fst (calls_exc params res setp run pol (KDetach true) cs s p)) x = nth_error s x.
+  Proof.
+    intros pol Hpol cs s p x Hx.
+    destruct (calls_exc_frame_gen params res setp run pol (KDetach true)) with (cs := cs) (s := s) (p := p)
+      as [ext He].
+    - intros ps s' p'.
+      destruct (step_detach_guarded_agrees params res setp run setp_frame run_frame setp_no_capture
+                  pol Hpol ps s' p') as [Hl Ha].
+      exists (skipn (length s') (fst (step_exc params res setp run pol (KDetach true) ps s' p'))).
+      apply prefix_of_agree; assumption.
+    - rewrite He. apply nth_error_app1. assumption.
+  Qed.
+End DetachCalls.
+
+Lemma setp_nonneg_frame : forall k s l, frame_ok s l (fst (setp_nonneg k s l)).
+Proof. intros. unfold setp_nonneg. simpl. split; [lia|auto]. Qed.
+
+Lemma setp_nonneg_no_capture : forall k s l x,
+  reach (fst (setp_nonneg k s l)) l x -> x < length s -> reach s l x.
+Proof. intros k s l x H _. exact H. Qed.
+
+Lemma run_touch_some_frame : forall k s l, frame_ok s l (fst (run_touch_some k s l)).
+Proof. intros. unfold run_touch_some. simpl. apply run_touch_frame. Qed.
